@@ -26,7 +26,7 @@ func genC11(dir, tier string, seed int64) {
 	r := rand.New(rand.NewSource(seed))
 	reps := 3
 	if tier == "thorough" {
-		reps = 60
+		reps = 200
 	}
 	cw := newCaseWriter(dir, "C11_ops", opHeader("CheckC11"), opFooter,
 		"Cast: all 10x10 numeric (source, target) pairs x value pools (integer extremes of the source, values around the extremes of the target, ties-to-even cases for int->float and float64->float32, +-0, subnormals, +-Inf, NaN for float targets; float->integer only with values whose truncation is representable in the target, incl. above 2^63 for uint64) x shapes of rank 0..3, plus unsupported target codes; ConstantOfShape: every element type as value x shapes rank 1..4 (and invalid: zero/negative extents, two-element value, unknown attribute); Constant: every attribute form (value tensor of every type and rank 0..3, value_float(s), value_int(s), refused forms, wrong attribute counts)", false, 300)
